@@ -11,6 +11,7 @@ mod g_derive;
 mod g_escape;
 mod g_hashable;
 mod g_quote;
+mod g_spell;
 mod g_take;
 mod g_token;
 mod g_types;
@@ -36,6 +37,7 @@ fn main() {
             "types" => g_types::generate(repo),
             "coltypes" => g_coltypes::generate(repo),
             "derive" => g_derive::generate(repo),
+            "spell" => g_spell::generate(repo),
             _ => Err(format!("unknown group {g}")),
         };
         match r {
